@@ -152,6 +152,8 @@ pub struct Trajectory {
     pub exit_out: String,
     pub exit_err: String,
     pub exit_loc: usize,
+    /// largest number of values alive on all stacks at any point (size of one debugger snapshot)
+    pub max_values: usize,
 }
 
 pub fn safe_output(s: &str) -> bool {
@@ -169,7 +171,7 @@ pub fn trajectory(text: &str, budget: usize, want: &dyn Fn(usize) -> bool) -> Re
         state.push_code(c.clone());
     }
     let mut reader = LineReader(Default::default());
-    let mut t = Trajectory { steps: Vec::new(), dumps: Default::default(), locs: vec![0], end: TrajEnd::Finished, exit_out: String::new(), exit_err: String::new(), exit_loc: 0 };
+    let mut t = Trajectory { steps: Vec::new(), dumps: Default::default(), locs: vec![0], end: TrajEnd::Finished, exit_out: String::new(), exit_err: String::new(), exit_loc: 0, max_values: 0 };
     if want(0) {
         t.dumps.insert(0, format!("{:?}", state));
     }
@@ -214,6 +216,7 @@ pub fn trajectory(text: &str, budget: usize, want: &dyn Fn(usize) -> bool) -> Re
                     t.end = TrajEnd::Unsupported("library interpreter disagrees with the reference (reported by C01)");
                     break;
                 }
+                t.max_values = t.max_values.max(model.total_values());
                 t.steps.push(Step { loc, out: model.out[o0..].to_string(), err: model.err[e0..].to_string() });
                 if want(t.steps.len()) {
                     t.dumps.insert(t.steps.len(), format!("{:?}", st));
@@ -247,6 +250,8 @@ pub struct Expected {
     pub status: i32,
     pub truncated_runs: usize,
     pub flags: Vec<&'static str>,
+    /// number of program steps the session makes the debugger execute (work estimate)
+    pub steps_executed: usize,
 }
 
 pub fn simulate(t: &Trajectory, n_cmds: usize, history: &[Op]) -> Expected {
@@ -254,7 +259,7 @@ pub fn simulate(t: &Trajectory, n_cmds: usize, history: &[Op]) -> Expected {
     let mut bps: BTreeSet<usize> = BTreeSet::new();
     bps.insert(0);
     let mut user_bps: BTreeSet<usize> = BTreeSet::new();
-    let mut e = Expected { chunks: Vec::new(), lines: Vec::new(), status: 0, truncated_runs: 0, flags: Vec::new() };
+    let mut e = Expected { chunks: Vec::new(), lines: Vec::new(), status: 0, truncated_runs: 0, flags: Vec::new(), steps_executed: 0 };
     let mut steps_seen = 0usize;
     if n_cmds == 0 {
         // nothing to debug: the session ends before the first prompt
@@ -287,6 +292,7 @@ pub fn simulate(t: &Trajectory, n_cmds: usize, history: &[Op]) -> Expected {
                 let s = &t.steps[k];
                 e.chunks.push(Chunk::Next { index: s.loc, out: s.out.clone(), err: s.err.clone() });
                 k += 1;
+                e.steps_executed += 1;
                 steps_seen = steps_seen.max(k);
                 if t.locs[k] >= n_cmds {
                     e.flags.push("stepped past the last command");
@@ -342,6 +348,7 @@ pub fn simulate(t: &Trajectory, n_cmds: usize, history: &[Op]) -> Expected {
                     Some(exit) => {
                         e.lines.push(line.clone());
                         e.chunks.push(Chunk::Run { out, err });
+                        e.steps_executed += j - k + 1;
                         if let Some(code) = exit {
                             e.status = code;
                             e.flags.push("run ends by program exit");
@@ -571,7 +578,13 @@ pub fn check(c: &Case11, st: &mut Stats, bin: &std::path::Path, scratch: &std::p
             st.trouble("wall-clock watchdog fired on `hyeong debug`");
             return Ok(());
         }
-        proc::Status::Signal(s) => fail!("c11:crash", "`hyeong debug` was killed by signal {} on script [{}]", s, shown_script()),
+        proc::Status::Signal(sig) if (sig == libc::SIGXCPU || sig == libc::SIGKILL) && exp.steps_executed * (1 + text.len() / 64 + t.max_values) > 2_000_000 => {
+            // the debugger keeps a full snapshot per executed step: long sessions on long programs are legitimately expensive;
+            // the harness's own CPU limit cannot judge them
+            st.exclude("session too heavy for the fixed CPU limit (steps x program size)");
+            return Ok(());
+        }
+        proc::Status::Signal(s) => fail!("c11:crash", "`hyeong debug` was killed by signal {} on script [{}] ({} program steps expected)", s, shown_script().chars().take(300).collect::<String>(), exp.steps_executed),
         proc::Status::Code(code) => {
             let err = r.err_str();
             ensure!(code != 101 && !err.contains("panicked at"), "c11:crash", "`hyeong debug` panicked (status {}) on script [{}]: {:?}", code, shown_script(), err.chars().take(300).collect::<String>());
@@ -634,6 +647,12 @@ pub fn check(c: &Case11, st: &mut Stats, bin: &std::path::Path, scratch: &std::p
     if t.steps.iter().any(|s| !s.out.is_empty() || !s.err.is_empty()) {
         st.class("program writes output");
     }
+    if t.steps.iter().map(|s| s.out.len() + s.err.len()).sum::<usize>() > 4096 {
+        st.class("program writes more than 4 KiB");
+    }
+    if exp.lines.iter().filter(|l| l.as_str() == "n" || l.as_str() == "next").count() >= 255 {
+        st.class("history with >= 255 single steps");
+    }
     let has = |f: &str| exp.flags.contains(&f);
     if has("state shown") && (has("previous after >= 2 steps") || has("run stops at a breakpoint set by the history") || has("break N with N >= len-1")) {
         st.nontrivial(&(&c.cmds, &exp.lines), || json!({"program": text, "script": exp.lines, "status": exp.status}));
@@ -694,10 +713,61 @@ fn strategy() -> BoxedStrategy<Case11> {
         .boxed()
 }
 
+/// long sessions: hundreds of steps before `run` / `previous` (step counts around 255/256/257 and 511/512), and programs
+/// that write more than 4 KiB / 8 KiB of output inside one `run` (the debugger buffers program output between flushes)
+fn long_strategy() -> BoxedStrategy<Case11> {
+    let steps = prop::sample::select(vec![0usize, 3, 100, 254, 255, 256, 257, 300, 511, 512, 513]);
+    (prop::sample::select(vec![38usize, 318, 702, 4222, 8318]), any::<bool>(), steps, 0usize..4, 0usize..4, prop::sample::select(vec![0usize, 1, 2, 5, 8]), any::<bool>())
+        .prop_map(|(n, print_out, k, back, again, bp, tail_exit)| {
+            let mut cmds = idiom_loop_clean(n, true, '♥');
+            if !print_out {
+                // print to stderr instead
+                for c in cmds.iter_mut() {
+                    if c.kind == 1 && c.h == 1 && c.d == 1 {
+                        c.d = 2;
+                    }
+                }
+            }
+            cmds.push(RCmd::new(0, 6, 11));
+            cmds.push(RCmd::new(1, 1, 1));
+            let mut h = Vec::new();
+            if bp > 0 {
+                h.push(Op::B(false, Some(BArg::Num(bp))));
+            }
+            for _ in 0..k {
+                h.push(Op::N(false));
+            }
+            h.push(Op::S(false));
+            h.push(Op::R(false));
+            for _ in 0..back {
+                h.push(Op::P(false));
+            }
+            h.push(Op::S(false));
+            for _ in 0..again {
+                h.push(Op::N(false));
+            }
+            h.push(Op::S(false));
+            if bp > 0 {
+                h.push(Op::B(false, Some(BArg::Num(bp))));
+            }
+            h.push(Op::R(true));
+            h.push(Op::S(true));
+            if tail_exit {
+                h.push(Op::Exit);
+            }
+            Case11 { cmds, history: h }
+        })
+        .boxed()
+}
+
 pub fn run(ctx: &Ctx, out: &mut Outcome) {
     let t = ctx.tier;
     let bin = ctx.hyeong_bin();
     let scratch = ctx.scratch.clone();
+    {
+        let (bin, scratch) = (bin.clone(), scratch.clone());
+        search::<Case11>(ctx, out, "long-sessions", t.pick(160, 1_200), &long_strategy, &move |c, st| check(c, st, &bin, &scratch, 90_000));
+    }
     let budget = t.pick(400, 3000);
     search::<Case11>(ctx, out, "debugger-sessions", t.pick(20_000, 250_000), &strategy, &move |c, st| check(c, st, &bin, &scratch, budget));
 }
@@ -726,6 +796,8 @@ pub fn gates(out: &Outcome, tier: Tier) -> Vec<String> {
         ("program writes output", 2000),
         ("program: loops past the budget", 300),
         ("ends at end of input", 1000),
+        ("program writes more than 4 KiB", 20),
+        ("history with >= 255 single steps", 30),
         ("exit command", 1000),
     ] {
         if out.stats.get(class) < min * m {
